@@ -124,9 +124,33 @@ def lean_bool(b):
     return 'true' if b else 'false'
 
 
+def tables_from_graph(g):
+    """Fallback when the source is outside the AST subset: derive the fold's tables from behaviour.
+
+    `graph2[(r, v)]` is `step(step(auto, r), v)`; whenever `step(auto, r) = r` this is `step(r, v)`.
+    The exhaustive correspondence on longer sequences then decides whether the code is still a fold.
+    """
+    g2 = {(x, y): r for x, y, r in g['graph2']}
+    sides = [v for v in VALUES if all(g2[(r, v)] == v for r in VALUES)]
+    pairs = [(v, r) for r in VALUES for v in VALUES
+             if v not in sides and v != r and g2[('auto', r)] == r and g2[(r, v)] == v]
+    pairs += [(v, 'auto') for v in VALUES if v not in sides and v != 'auto' and g2[('auto', v)] == v
+              and (v, 'auto') not in pairs]
+    return {
+        'sides': sides, 'pairs': pairs,
+        'avoid_col': [v for v, c, r in g['avoid'] if c and r], 'avoid_page': [v for v, c, r in g['avoid'] if not c and r],
+        'force_col': [v for v, c, r in g['force'] if c and r], 'force_page': [v for v, c, r in g['force'] if not c and r],
+        'sha': 'graph-fallback'}
+
+
 def generate():
-    a = ast_tables()
     g = graph_tables()
+    try:
+        a = ast_tables()
+        source = 'ast'
+    except ExtractionError as exc:
+        a = tables_from_graph(g)
+        source = f'graph-fallback ({exc})'
     text = f'''/- GENERATED by py/extract/break_table.py from {REL} (span sha {a['sha']}). Do not edit. -/
 import WpModel.Model.BreakTypes
 namespace Wp.Gen
@@ -157,5 +181,5 @@ def forceGraph : List (Brk × Bool × Bool) := {lean_list([f'({brk(v)}, {lean_bo
 end Wp.Gen
 '''
     changed = write_if_changed('BreakTable', text)
-    return {'name': 'BreakTable', 'changed': changed, 'sha256_of_source_span': a['sha'],
+    return {'name': 'BreakTable', 'changed': changed, 'source': source, 'sha256_of_source_span': a['sha'],
             'entries': len(a['pairs']) + len(a['sides']) + len(g['graph2']) + 40}
